@@ -1,6 +1,7 @@
 import Brc20.Model.DriverT
 import Brc20.Model.DriverC
 import Brc20.Model.DriverP
+import Brc20.Model.DriverF
 
 open Brc20
 
@@ -17,11 +18,19 @@ partial def loopStateless (h : IO.FS.Stream) (out : IO.FS.Stream) (f : String â†
   out.putStrLn (f line)
   loopStateless h out f
 
+partial def loopF (h : IO.FS.Stream) (out : IO.FS.Stream) (d : Config.Dir) : IO Unit := do
+  let line â† h.getLine
+  if line.isEmpty then return ()
+  let (d', o) := DriverF.step d line
+  out.putStrLn o
+  loopF h out d'
+
 def main (args : List String) : IO UInt32 := do
   let stdin â† IO.getStdin
   let stdout â† IO.getStdout
   match args with
   | ["T"] => loopT stdin stdout {}; return 0
   | ["C"] => loopStateless stdin stdout DriverC.step; return 0
+  | ["F"] => loopF stdin stdout .missing; return 0
   | ["P"] => loopStateless stdin stdout DriverP.step; return 0
   | _ => IO.eprintln "usage: brc20model <suite>"; return 2
